@@ -96,6 +96,16 @@ def check_entry(ctx, st, pt, vocab_name, e, spellings, reference, table_ok=True)
                               {'vocabulary': vocab_name, 'entry': e.id, 'spelling': reference, 'tabulated': e.comp,
                                'observed': ref[1]})
         ctx.sig((vocab_name, 'accession', obs_name, ref[0] if ref[0] == 'ok' else ref[1]), False)
+        # a wrong-case variant of the first spelling is asked for before and after the documented spellings: whatever
+        # the library answers for it (vocabularies differ in case sensitivity), it answers the same both times, and it
+        # does not change what the documented spellings resolve to
+        wrong = None
+        if spellings and obs_name != 'avg':
+            t0 = spellings[0][1]
+            wrong = t0.lower() if t0.lower() != t0 else t0.upper()
+            if wrong == t0:
+                wrong = None
+        w1 = observe(st, pt, fn, wrong, **kw) if wrong else None
         for form, text in spellings:
             got = observe(st, pt, fn, text, **kw)
             ctx.decided()
@@ -105,6 +115,13 @@ def check_entry(ctx, st, pt, vocab_name, e, spellings, reference, table_ok=True)
                                'observable': obs_name, 'reference_spelling': reference, 'reference': ref,
                                'observed': got})
             ctx.sig((vocab_name, form, obs_name, ref[0] if ref[0] == 'ok' else ref[1]), True)
+        if wrong:
+            w2 = observe(st, pt, fn, wrong, **kw)
+            ctx.decided()
+            if not same(w1, w2):
+                ctx.violation('same-text-resolves-differently-the-second-time',
+                              {'vocabulary': vocab_name, 'entry': e.id, 'text': wrong, 'observable': obs_name,
+                               'first': w1, 'after_the_documented_spellings': w2})
     # through the parser, for names that can be written in brackets
     for form, text in spellings[:3]:
         if not gp.writable(text):
@@ -238,9 +255,50 @@ def generic_forms(ctx, st, pt):
         ctx.sample({'text': text, 'mult': mult})
 
 
+CASE_PAIRS = [('CS2', {'C': 1, 'S': 2}, 'Cs2', {'Cs': 2}), ('CO', {'C': 1, 'O': 1}, 'Co', {'Co': 1}),
+              ('NO2', {'N': 1, 'O': 2}, 'No2', {'No': 2}), ('HF', {'H': 1, 'F': 1}, 'Hf', {'Hf': 1}),
+              ('SI', {'S': 1, 'I': 1}, 'Si', {'Si': 1}), ('OS', {'O': 1, 'S': 1}, 'Os', {'Os': 1}),
+              ('CU', {'C': 1, 'U': 1}, 'Cu', {'Cu': 1}), ('NI3', {'N': 1, 'I': 3}, 'Ni3', {'Ni': 3}),
+              ('SN', {'S': 1, 'N': 1}, 'Sn', {'Sn': 1}), ('PB', {'P': 1, 'B': 1}, 'Pb', {'Pb': 1}),
+              ('HO', {'H': 1, 'O': 1}, 'Ho', {'Ho': 1}), ('NB', {'N': 1, 'B': 1}, 'Nb', {'Nb': 1}),
+              ('C2H4SI', {'C': 2, 'H': 4, 'S': 1, 'I': 1}, 'C2H4Si', {'C': 2, 'H': 4, 'Si': 1})]
+
+
+def case_pairs(ctx, st, pt):
+    """Formula texts that differ only in letter case spell different compositions (CS2 is carbon disulfide, Cs2 two
+    caesium atoms); asked for one after the other, in both orders, through both prefix cases.  The composition must
+    have exactly the symbols written; the mass is compared with the library's own chem_mass of that dictionary."""
+    rng = ctx.rng
+    for _ in range(3 if ctx.quick() else 40):
+        a_txt, a_comp, b_txt, b_comp = rng.choice(CASE_PAIRS)
+        order = [(a_txt, a_comp), (b_txt, b_comp)]
+        if rng.random() < 0.5:
+            order.reverse()
+        order.append(order[0])
+        for txt, comp in order:
+            pre = rng.choice(['Formula:', 'formula:', 'FORMULA:'])
+            text = pre + txt
+            ctx.begin({'form': 'generic', 'text': text, 'mult': 1})
+            try:
+                with ctx.eng.suspend():
+                    want = pt.chem_mass(dict(comp))
+            except Exception:
+                continue        # element not in the bundled table
+            gc = observe(st, pt, 'mod_comp', text)
+            gm = observe(st, pt, 'mod_mass', text)
+            ctx.decided(2)
+            if not (gc and gc[0] == 'ok' and {k: v for k, v in gc[1].items() if v != 0} == comp):
+                ctx.violation('generic-form-composition-differs', {'text': text, 'mult': 1, 'expected': comp, 'observed': gc})
+            if not (gm and gm[0] == 'ok' and abs(gm[1] - want) <= 1e-5):
+                ctx.violation('generic-form-mass-differs', {'text': text, 'mult': 1, 'monoisotopic': True,
+                                                            'expected': want, 'observed': gm})
+            ctx.sig(('generic', ['formula', 'case-pair', pre]), True)
+
+
 def run(ctx):
     st = State()
     pt = install(ctx, st)
+    ctx.enable_disturb(pt, 0.02)     # other legitimate library calls interleaved between cases (vf.gen.disturb)
     k = 0
     psi_names = {e.name for e in obo.psimod()} | {e.id for e in obo.psimod()}
     uni_names = {e.name for e in obo.unimod()} | {e.id for e in obo.unimod()}
@@ -288,6 +346,7 @@ def run(ctx):
         sp.append(('Glycan:id', 'Glycan:' + e.id))
         check_entry(ctx, st, pt, 'monosaccharide', e, sp, 'Glycan:' + e.name)
     generic_forms(ctx, st, pt)
+    case_pairs(ctx, st, pt)
     ctx.extra['bare_names_shared_between_vocabularies_skipped'] = shared
 
 
